@@ -38,6 +38,10 @@ pub const URIS: &[&str] = &[
     "HTTP://a.test",
     "http://a.test:80",
     "",
+    // "<uri>|<host>": the request carries an explicit Host header; the pool key must come from the URI all the same
+    "http://a.test|b.test",
+    "http://b.test|a.test",
+    "http://a.test|a.test",
 ];
 
 #[derive(Debug)]
@@ -388,11 +392,18 @@ async fn run_case(line: String) -> String {
                 let (u, p) = rest.split_once('.').unwrap();
                 let u: usize = u.parse().unwrap();
                 let rid = futs.len();
-                let uri = format!("{}/r{}", URIS[u], rid);
+                let (base, host_hdr) = match URIS[u].split_once('|') {
+                    Some((b, h)) => (b, Some(h)),
+                    None => (URIS[u], None),
+                };
+                let uri = format!("{}/r{}", base, rid);
                 let version = if p == "2" { http::Version::HTTP_2 } else { http::Version::HTTP_11 };
                 let mut req = http::Request::new(Empty::<Bytes>::new());
                 *req.uri_mut() = uri.parse().unwrap();
                 *req.version_mut() = version;
+                if let Some(h) = host_hdr {
+                    req.headers_mut().insert(http::header::HOST, http::HeaderValue::from_static(h));
+                }
                 w.lock().unwrap().reqs.push(Req::default());
                 let fut = tower::Service::call(&mut svc, req);
                 futs.push(Some(Box::pin(fut)));
@@ -544,7 +555,7 @@ fn main() {
                 emit(&mut o, "- -");
                 continue;
             }
-            let uri: http::Uri = format!("{}/", u).parse().unwrap();
+            let uri: http::Uri = format!("{}/", u.split('|').next().unwrap()).parse().unwrap();
             emit(&mut o, &format!("{} {}", uri.scheme_str().unwrap_or("-"), uri.authority().map(|a| a.as_str()).unwrap_or("-")));
         }
         return;
